@@ -386,7 +386,7 @@ func f4(v []int64) []float64 {
 }
 
 func TestPropWindowFunctions(t *testing.T) {
-	rec.Check(t, 80000, 2400000, func(t *rapid.T) {
+	rec.Check(t, 80000, 1600000, func(t *rapid.T) {
 		fn := rapid.SampledFrom(sliceFns).Draw(t, "fn")
 		s := genSeries(t, 60, false)
 		pm := rapid.SampledFrom(pctChoices).Draw(t, "percentile")
@@ -420,7 +420,7 @@ func TestPropWindowFunctions(t *testing.T) {
 
 // mode() of strings and booleans.
 func TestPropModeStringBoolean(t *testing.T) {
-	rec.Check(t, 8000, 240000, func(t *rapid.T) {
+	rec.Check(t, 8000, 160000, func(t *rapid.T) {
 		n := rapid.IntRange(1, 12).Draw(t, "n")
 		vals := rapid.SliceOfN(rapid.IntRange(0, 2), n, n).Draw(t, "vals")
 		isBool := rapid.Bool().Draw(t, "bool")
